@@ -306,6 +306,39 @@ def run(prog: Program, col: Collector, tier: str, refs: Optional[Refs] = None, c
     algebra.r_operand_multiplicity(prog, col, refs, cat, "R11.14")
     algebra.r_size_product_over_sequence(prog, col, refs, cat, "R11.15")
     numerics.run_agreement(prog, col, refs, cat, rule="R11.16")
+    # ---------------------------------------------------------------- R11.17 what the eager Scatter drops, it has reduced
+    col.rule("R11.17", "the eager Scatter drops a reduced input of the source from the result only if a substituted value mentions it, or after reducing the source over it", floor=1)
+    es = prog.funcs.get("funsor.tensor::eager_scatter_tensor")
+    if es is None or len(es.positional) != 4:
+        raise AnalysisError("anchor funsor.tensor::eager_scatter_tensor(op, subs, source, reduced_vars) not found")
+    op_p, subs_p, src_p, rv_p = es.positional
+    # the scatter kernel overwrites (it does not accumulate): is that still so?
+    kernel = [c for c in ast.walk(es.node) if isinstance(c, ast.Call) and norm(c.func).rsplit(".", 1)[-1] in ("scatter", "scatter_add")]
+    overwrites = any(norm(c.func).rsplit(".", 1)[-1] == "scatter" for c in kernel)
+    # inputs of the source are left out of the result's inputs under a membership test in the reduced names
+    drops = [lp for lp in ast.walk(es.node) if isinstance(lp, ast.For) and norm(lp.iter) == f"{src_p}.inputs.items()"
+             and any(isinstance(t, ast.Compare) and isinstance(t.ops[0], (ast.In, ast.NotIn)) and "reduced" in norm(t.comparators[0]) for t in ast.walk(lp))]
+    reduces = [c for c in ast.walk(es.node) if isinstance(c, ast.Call) and isinstance(c.func, ast.Attribute) and c.func.attr == "reduce" and norm(c.func.value) == src_p
+               and c.args and norm(c.args[0]) == op_p]
+    construct = f"{es.fq}::reduced inputs of the source"
+    if not kernel or not drops:
+        col.unresolved(construct, "scatter kernel call or the loop over the source's inputs not found", es.loc())
+    elif not overwrites:
+        col.ok(construct, "the kernel accumulates (scatter_add)", es.loc(kernel[0]))
+    elif reduces and all(r_.lineno < drops[0].lineno for r_ in reduces):
+        # the reduction covers the variables no substituted value mentions: its variable set is computed from the values' inputs
+        arg = reduces[0].args[1] if len(reduces[0].args) > 1 else None
+        defs_ = [st.value for st in ast.walk(es.node) if isinstance(st, ast.Assign) and arg is not None and norm(st.targets[0]) == norm(arg)]
+        mentions_values = any(subs_p in {y.id for y in ast.walk(d_) if isinstance(y, ast.Name)} or any(isinstance(y, ast.Name) and y.id != rv_p and y.id != src_p for y in ast.walk(d_)) for d_ in defs_)
+        if defs_ and mentions_values:
+            col.ok(construct, f"`{src_p}.reduce({op_p}, {norm(arg)})` sums the inputs that no substituted value mentions before the overwriting kernel runs", es.loc(reduces[0]))
+        else:
+            col.unresolved(construct, f"`{norm(reduces[0])[:50]}`: the reduced set is not derived from the substituted values", es.loc(reduces[0]))
+    else:
+        col.violation(construct, f"inputs of `{src_p}` that are in `{rv_p}` are left out of the result, and the data are written with the overwriting kernel `ops.scatter`: for a reduced input "
+                      "that no substituted value mentions, all its slices are written to the same place and the last one wins, where Scatter(op, subs, source, V) is documented to equal "
+                      "Scatter(op, subs, source, {}).reduce(op, V) - the adjoint of a renamed leaf under a root with another free variable is one slice of the derivative instead of its sum",
+                      es.loc(drops[0]))
     return col
 
 
